@@ -134,13 +134,25 @@ func c08Derive(r *rand.Rand, g *DocGen, l W, depth int) W {
 		case "cont":
 			m[k] = c08Derive(r, g, v, depth+1)
 		case "list":
-			if r.Intn(2) == 0 {
+			switch r.Intn(4) {
+			case 0: // another list, unrelated
 				nl := g.List(r, depth+1)
 				if r.Intn(4) > 0 {
 					nl = c08FixLists(r, g, nl)
 				}
 				m[k] = nl
-			} else {
+			case 1: // another list, a near miss of the left one (items gain / lose keys, items added / dropped / swapped)
+				wrap := W(map[string]any{"m": map[string]any{"k": deepCopyW(v)}})
+				for i, n := 0, 1+r.Intn(3); i < n; i++ {
+					wrap = g.Mutate(r, wrap)
+				}
+				wc, _ := wireCont(wrap)
+				if nl, ok := wc["k"].([]any); ok {
+					m[k] = nl
+				} else {
+					m[k] = deepCopyW(v)
+				}
+			default:
 				m[k] = deepCopyW(v)
 			}
 		default:
